@@ -31,19 +31,28 @@ func zzCall7(ch *channel, entry int, p []byte) (int64, error) {
 }
 
 // ZZ_C11_AfterClose: after Close(arg) has returned, every write entry point fails and transmits nothing.
-// pre != 0: one payload is accepted (and sent) before the Close, so that the sender has run.
+// pre bit 0: one payload is accepted (and sent) before the Close, so that the sender has run;
+// pre bit 1: the channel's parent context is cancelled before Close is called.
 func ZZ_C11_AfterClose(q, until, entry, closeArg, pre int) {
 	tr := newZZTransport()
 	pl := NewPipeline()
 	probe := &zzProbe{swallowEx: true}
 	pl.AddLast(probe)
-	ch := zzNewChannel(pl, tr, q, until != 0)
-	if pre != 0 {
+	parent, cancelParent := context.WithCancel(context.Background())
+	ch := newChannelWith(parent, pl, tr, AsyncExecutor(), 1, q, until != 0).(*channel)
+	pl.(*pipeline).channel = ch
+	if pre&1 != 0 {
 		n, err := ch.Write1([]byte{1, 2})
 		vrt.Assert(err == nil && n == 2, "c11-open-channel-accepts")
 	}
 	vrt.Facet("entry", entry)
 	vrt.Facet("closearg", closeArg)
+	if pre&2 != 0 {
+		if q > 0 {
+			vrt.Quiesce() // the accepted payload is sent first
+		}
+		cancelParent() // the channel's parent context ends before Close is called (what Bootstrap.Shutdown does)
+	}
 	ch.Close(zzCloseArg(closeArg))
 	sent := len(tr.log)
 	n, err := zzCall7(ch, entry, []byte{7, 8, 9})
